@@ -5,6 +5,27 @@ from vf import engines, si
 from vf.gen import q_bare, TIME_DIM
 
 
+def seed_form(r, seed):
+    """the same seed as one of the integer-like objects a caller may hold (an element of numpy.arange, a numpy scalar...)"""
+    if seed is None:
+        return None
+    forms = ["int", "int", "int64", "uint64", "0-d array"]
+    if seed < 2 ** 31:
+        forms += ["int32"]
+    if seed < 2 ** 32:
+        forms += ["uint32"]
+    if seed < 2 ** 53:
+        forms += ["float"]
+    f = r.choice(forms)
+    if f == "int":
+        return int(seed)
+    if f == "float":
+        return float(seed)
+    if f == "0-d array":
+        return np.array(int(seed))
+    return getattr(np, f)(seed)
+
+
 def make_script(system, r, *, dt_si, t_sample_si, policy="on_t_sample", t_max_si="default", interval_si=None,
                 seed=0, isp="auto", usys=None, forms=("bare", "str")):
     """RDScript with time quantities rendered in unit system `usys` (bare) or as explicit strings."""
@@ -17,7 +38,7 @@ def make_script(system, r, *, dt_si, t_sample_si, policy="on_t_sample", t_max_si
             return q_bare(x, usys, TIME_DIM)
         own = r.choice(["s", "ms", "min", "µs", "ds"])
         return "%r %s" % (float(x / float(si.TIME[own])), own)
-    kw = dict(system=system, time_step=tq(dt_si), sampling_policy=policy, rng_seed=seed,
+    kw = dict(system=system, time_step=tq(dt_si), sampling_policy=policy, rng_seed=seed_form(r, seed),
               init_state_processing=isp, units_system=UnitsSystem(**si.sys_dict(usys)))
     kw["t_sample"] = [q_bare(x, usys, TIME_DIM) for x in t_sample_si]
     if t_max_si != "default":
